@@ -1,7 +1,7 @@
 (** Pinned statements of the C15 property theorems: compiled on every check, so a theorem cannot be
     weakened silently. *)
 From Coq Require Import Sorting.Permutation.
-From V Require Import Base.Util Gql.Ast C15.Model C15.Spec C15.Proofs C15.Proofs2 C15.Reify C15.CheckBridge C15.CheckSim C15.CheckSim2 C15.CheckRespects C15.EmitSim C15.Corr C15.Properties.
+From V Require Import Base.Util Gql.Ast C15.Model C15.Spec C15.Proofs C15.Proofs2 C15.Reify C15.CheckBridge C15.CheckSim C15.CheckSim2 C15.CheckRespects C15.EmitSim C15.EmitIface C15.EmitDen C15.Corr C15.Properties.
 
 Check (C15_routes_agree : forall st meta M D,
   model_ok M = true ->
@@ -140,3 +140,49 @@ Check (C15_emit_respects_equiv : forall st meta M Dsdl,
         (forall d p nm i ds fs k, tA <> TDInterface d p nm i ds fs k) ->
         res_shape (V.C10.Model.type_member (V.C10.Model.make_ctx o DA tg) tA) = res_shape (V.C10.Model.type_member (V.C10.Model.make_ctx o Dsdl tg) tD)).
 Print Assumptions C15_emit_respects_equiv.
+Check (C15_emit_respects_equiv_interface : forall st meta M Dsdl,
+  model_ok M = true -> doc_equiv Dsdl (sdl_doc M) -> parsed_positions Dsdl ->
+  exists Sj, json_route (introspect st meta M) = Ok Sj /\
+    let DA := type_system_to_ast Sj in
+    forall o tg,
+      bag_equiv_b (V.C10.Model.c_bag (V.C10.Model.make_ctx o DA tg)) (V.C10.Model.c_bag (V.C10.Model.make_ctx o Dsdl tg)) = true ->
+      objects_outside_b (vis_of M) DA = true -> objects_outside_b (vis_of M) Dsdl = true ->
+      forall n d1 p1 n1 i1 ds1 f1 k1 d2 p2 n2 i2 ds2 f2 k2, vis_of M n = true ->
+        V.C10.Model.get_type DA n = Some (TDInterface d1 p1 n1 i1 ds1 f1 k1) ->
+        V.C10.Model.get_type Dsdl n = Some (TDInterface d2 p2 n2 i2 ds2 f2 k2) ->
+        iface_rel (V.C10.Model.type_member (V.C10.Model.make_ctx o DA tg) (TDInterface d1 p1 n1 i1 ds1 f1 k1))
+                  (V.C10.Model.type_member (V.C10.Model.make_ctx o Dsdl tg) (TDInterface d2 p2 n2 i2 ds2 f2 k2))).
+Print Assumptions C15_emit_respects_equiv_interface.
+Check (C15_alias_denotations_agree : forall st meta M Dsdl,
+  model_ok M = true -> doc_equiv Dsdl (sdl_doc M) -> parsed_positions Dsdl ->
+  exists Sj, json_route (introspect st meta M) = Ok Sj /\
+    let DA := type_system_to_ast Sj in
+    forall o t nssA nssD T bodyA bodyD,
+      V.C10.Spec.wf_schema o DA = true -> V.C10.Spec.wf_schema o Dsdl = true ->
+      V.C10.Model.schema_decls o DA = V.C10.Model.Ok nssA -> V.C10.Model.schema_decls o Dsdl = V.C10.Model.Ok nssD ->
+      doc_emit_closed_b (vis_of M) DA = true ->
+      objects_outside_b (vis_of M) DA = true -> objects_outside_b (vis_of M) Dsdl = true ->
+      vis_of M T = true -> V.C10.Spec.applicable DA t T = true ->
+      V.C10.Spec.alias_of (V.C10.Spec.namespace_of nssA t) T = Some bodyA ->
+      V.C10.Spec.alias_of (V.C10.Spec.namespace_of nssD t) T = Some bodyD ->
+      forall v,
+        (Ts.TsDen.In_type (V.C10.Spec.ns_env (V.C10.Spec.namespace_of nssA t)) bodyA v <->
+         Ts.TsDen.In_type (V.C10.Spec.ns_env (V.C10.Spec.namespace_of nssD t)) bodyD v)
+        /\ (Ts.TsDen.NotIn_type (V.C10.Spec.ns_env (V.C10.Spec.namespace_of nssA t)) bodyA v <->
+            Ts.TsDen.NotIn_type (V.C10.Spec.ns_env (V.C10.Spec.namespace_of nssD t)) bodyD v)).
+Print Assumptions C15_alias_denotations_agree.
+Check (C15_certified_alias_denotations : forall st M D J out_sdl out_json docs,
+  agree (CRoutes false true st false [] M D J out_sdl out_json docs) = true ->
+  exists Sj, out_json = Ok Sj /\
+    forall t nssA nssD T bodyA bodyD,
+      V.C10.Model.schema_decls guard_opts (type_system_to_ast Sj) = V.C10.Model.Ok nssA ->
+      V.C10.Model.schema_decls guard_opts D = V.C10.Model.Ok nssD ->
+      vis_of M T = true -> V.C10.Spec.applicable (type_system_to_ast Sj) t T = true ->
+      V.C10.Spec.alias_of (V.C10.Spec.namespace_of nssA t) T = Some bodyA ->
+      V.C10.Spec.alias_of (V.C10.Spec.namespace_of nssD t) T = Some bodyD ->
+      forall v,
+        (Ts.TsDen.In_type (V.C10.Spec.ns_env (V.C10.Spec.namespace_of nssA t)) bodyA v <->
+         Ts.TsDen.In_type (V.C10.Spec.ns_env (V.C10.Spec.namespace_of nssD t)) bodyD v)
+        /\ (Ts.TsDen.NotIn_type (V.C10.Spec.ns_env (V.C10.Spec.namespace_of nssA t)) bodyA v <->
+            Ts.TsDen.NotIn_type (V.C10.Spec.ns_env (V.C10.Spec.namespace_of nssD t)) bodyD v)).
+Print Assumptions C15_certified_alias_denotations.
